@@ -159,7 +159,7 @@ func init() {
 		Title:    "Satisfies = Boolean truth of the expression under the allowed list",
 		Explorer: "E1 bounded-exhaustive tree x labelling x allowed-list enumeration vs R-bool over the implementation's single-term verdicts",
 		Rule: "S1: every binary tree with <= N leaves, every AND/OR labelling, every leaf labelling over 4 atoms (2 licences, 2 references), rendered fully parenthesised, with minimal parentheses and with flat right chains / parenthesised left groups, x every non-empty subset of the atoms as allowed list; " +
-			"S3: every shape and AND/OR labelling with all-distinct leaves up to 7 (thorough 8) leaves x {all, all-but-one, single} allowed lists; S5: every tree <= 3 leaves over the 5-7 ways of writing one license (x, x+, x-only, x-or-later, x WITH e, x+ WITH e, x WITH f; 4 licenses) x lists over the same terms; S6: for every family of the version table, every tree <= 2 (thorough 3) leaves over its first, second and last version x lists of <= 2 entries over those ids with and without '+'; S2: every tree <= 3 leaves over 15 rich terms (+, -only, -or-later, WITH, refs, case) x every allowed list up to a length bound over 16 overlapping entries (with repetition, re-spellings); " +
+			"S3: every shape and AND/OR labelling with all-distinct leaves up to 7 (thorough 8) leaves x {all, all-but-one, single} allowed lists; S5: every tree <= 3 leaves over the 5-7 ways of writing one license (x, x+, x-only, x-or-later, x WITH e, x+ WITH e, x WITH f; 4 licenses) x lists over the same terms; S6: for every family of the version table, every tree <= 2 (thorough 3) leaves over its first, second and last version x lists of <= 2 entries over those ids with and without '+', MIT+ and up to 2 ids that sort between the family's versions; S2: every tree <= 3 leaves over 15 rich terms (+, -only, -or-later, WITH, refs, case) x every allowed list up to a length bound over 16 overlapping entries (with repetition, re-spellings); " +
 			"state = (expression text, allowed list), transition = one Satisfies call; non-trivial = the tree mentions >= 2 distinct terms and the truth assignment restricted to them is neither all-false nor all-true",
 		Assumptions: []string{
 			"truth of a leaf = exists allowed entry b with Satisfies(term,[b]) (the implementation's own single-term verdict, as the property states); the matching relation itself is C02's subject",
@@ -541,11 +541,15 @@ func c01Run(c *Ctx) {
 				entries = append(entries, a+"+")
 			}
 		}
+		// entries that are no version of the family: a '+' entry outside every family, and ids that sort
+		// between the family's versions (they sit between its entries once the list is sorted)
+		entries = append(entries, "MIT+")
+		entries = append(entries, inBetweenIDs(f, 2)...)
 		if !sweep(atoms, entries, p6) {
 			return
 		}
 	}
-	c.Bound("S6", map[string]any{"families": nf, "terms": "first id of the first, second and last version step", "entries": "those ids, plain and with '+'", "plans(leaves,max_list_len)": p6})
+	c.Bound("S6", map[string]any{"families": nf, "terms": "first id of the first, second and last version step", "entries": "those ids, plain and with '+', MIT+, and up to 2 ids outside every family that sort between the family's versions", "plans(leaves,max_list_len)": p6})
 }
 
 func popcount(x uint32) int {
